@@ -329,7 +329,80 @@ def c11(tier, rep):
     E.traces(rep, E.record_all(std_sources(tier, 300, 3000)), "corpus+gen+noisy")
 
 
-CHECKS = {"C02": c02, "C11": c11, "C17": c17, "C06": c06, "C07": c07, "C08": c08, "C05": c05, "C12": c12, "C01": c01, "C03": c03, "C04": c04, "C14": c14, "C18": c18}
+def c09(tier, rep):
+    import compilelevel as CL
+    rep.extra["rule"] = ("every template <= L over {<, >, a, ., backslash, $} x header/value pairs (regex metacharacters, group references, placeholders in values, "
+                         "two sequential columns): distinct triples, non-trivial = the template contains a placeholder of the header; replayed on AST dictionaries "
+                         "through Compiler.compile (name, step text, cell, doc string content, media type, background step untouched); a sample as real text")
+    headers = [["a"], ["."], ["a."], ["<a"], ["a>"], ["("], [""], ["$"], ["\\"], ["a", "."], ["a", "<a>"]]
+    values = [["x"], [""], ["<a>"], ["\\"], ["\\1"], ["$"], [".a"], [">"], ["\\g<0>"], ["<.>", "y"], ["<a>", "<.>"], ["<<a>>", "z"]]
+    cases, bad, res = CL.interpolate("<>a.\\$", 4 if tier == "quick" else 5, headers, values)
+    rep.add_tlc("MC_Interpolate", res, f"{len(cases)} (template, headers, values) triples: operational = declarative, unchanged, literal, sequential; replayed through Compiler.compile")
+    rep.traces += len(cases)
+    for c in cases:
+        t, h = "".join(map(chr, c["t"])), ["".join(map(chr, x)) for x in c["h"]]
+        rep.case((tuple(c["t"]), repr(c["h"]), repr(c["v"])), nontrivial=any("<" + x + ">" in t for x in h))
+    rep.sample({"template": "".join(map(chr, cases[len(cases) // 3]["t"])), "headers": ["".join(map(chr, x)) for x in cases[len(cases) // 3]["h"]],
+                "values": ["".join(map(chr, x)) for x in cases[len(cases) // 3]["v"]], "result": "".join(map(chr, cases[len(cases) // 3]["r"]))})
+    for inv in sorted(set(res.invariant_violations)):
+        rep.violation({"kind": "spec-invariant", "invariant": inv}, {"engine": "MC_Interpolate", "what": f"{inv} violated", "tlc_tail": res.out[-3000:]})
+    for b in bad[:50]:
+        rep.violation({"kind": "interpolate:" + b["field"]}, {"engine": "interpolate", "what": "Compiler.compile substitutes differently from the specification", **b})
+    # as real text, through the parser too
+    def esc(s):
+        return s.replace("\\", "\\\\").replace("|", "\\|").replace("\n", "\\n")
+    docs = []
+    for k, c in enumerate(cases[:: max(1, len(cases) // (150 if tier == "quick" else 1500))]):
+        t, hs, vs = "".join(map(chr, c["t"])), ["".join(map(chr, x)) for x in c["h"]], ["".join(map(chr, x)) for x in c["v"]]
+        if any(x != x.strip() for x in hs + vs + [t]) or not t.strip():
+            continue
+        docs.append((f"interp-text:{k}", "Feature: f\n  Background:\n    Given " + t + "\n  Scenario Outline: " + t + "\n    Given " + t + "\n      | " + esc(t) + " |\n    When y\n      \"\"\" " + t
+                     + "\n      " + t + "\n      \"\"\"\n    Examples:\n      | " + " | ".join(map(esc, hs)) + " |\n      | " + " | ".join(map(esc, vs)) + " |\n", "en"))
+    E.traces(rep, E.record_all(docs + std_sources(tier, 200, 2000)), "interp-text+corpus+gen")
+
+
+def c10(tier, rep):
+    import compilelevel as CL, keywords as K
+    from common import master_dialects
+    rep.extra["rule"] = ("every sequence of the 5 step keyword types over background 0..2 x scenario 0..4 steps, plain and outline (complete up to that length); "
+                         "replayed on AST dictionaries and (short ones) as text; every listed step keyword of every dialect once for the keyword -> type map")
+    cases, bad, res = CL.types(2, 4 if tier == "quick" else 5)
+    rep.add_tlc("MC_Types", res, f"{len(cases)} keyword type sequences x plain/outline: Inv_Definite, Inv_FromKeyword, Inv_PlainEqualsOutline, P_C10; replayed through Compiler.compile")
+    rep.traces += 2 * len(cases)
+    for c in cases:
+        rep.case((tuple(c["bg"]), tuple(c["sc"])), nontrivial=len(c["sc"]) > 0)
+    rep.sample({"background": cases[len(cases) // 2]["bg"], "scenario": cases[len(cases) // 2]["sc"], "types": cases[len(cases) // 2]["plain"]})
+    for inv in sorted(set(res.invariant_violations)):
+        rep.violation({"kind": "spec-invariant", "invariant": inv}, {"engine": "MC_Types", "what": f"{inv} violated", "tlc_tail": res.out[-3000:]})
+    for b in bad[:50]:
+        rep.violation({"kind": "types"}, {"engine": "types", "what": "pickle step types differ from the specification", **b})
+    # every step keyword of every dialect: the keyword -> type map, via real documents with an outline
+    langs = master_dialects()
+    docs = []
+    for d in sorted(langs):
+        D = langs[d]
+        kws = []
+        for role in K.STEP:
+            for kw in D[role]:
+                if kw not in kws:
+                    kws.append(kw)
+        body = f"{D['feature'][0]}: f\n  {D['scenarioOutline'][0]}: o\n" + "".join(f"    {kw}s{i}\n" for i, kw in enumerate(kws)) + f"    {D['examples'][0]}:\n      | h |\n      | 1 |\n"
+        docs.append((f"steps:{d}", body, d))
+    E.traces(rep, E.record_all(docs + std_sources(tier, 200, 2000)), "all-step-keywords+corpus+gen")
+
+
+def c13(tier, rep):
+    rep.extra["rule"] = ("doc string bodies: every sequence of <= N menu lines (every kind of Gherkin-looking line, both delimiters and their escaped forms, less / "
+                         "equally / more indented lines) after an opening delimiter in scenario, background and outline steps, closed or not; accepted documents "
+                         "replayed; plus menu sequences with rejected outcomes and corpus/generated traces")
+    q = tier == "quick"
+    E.grow(rep, M.DOCSTRING, [([1, 2, 3, 4], 3 if q else 4), ([1, 2, 3, 5], 3 if q else 4), ([1, 2, 3, 6], 2 if q else 3), ([1, 2, 3, 7], 2 if q else 3),
+                              ([1, 18, 3, 4], 2), ([1, 19, 3, 5], 2)], invariants=["Inv_C13"], label="docstring", no_free_text=False)
+    E.menu(rep, M.DOCSTRING[:15], 3 if q else 4, max_errs=2, invariants=["Inv_C13"], label="docstring-any")
+    E.traces(rep, E.record_all(std_sources(tier, 300, 3000)), "corpus+gen+noisy")
+
+
+CHECKS = {"C02": c02, "C09": c09, "C10": c10, "C13": c13, "C11": c11, "C17": c17, "C06": c06, "C07": c07, "C08": c08, "C05": c05, "C12": c12, "C01": c01, "C03": c03, "C04": c04, "C14": c14, "C18": c18}
 
 
 def replay(prop: str, path: str) -> int:
